@@ -465,6 +465,8 @@ class Run:
         self.ctx = ctx
         self.reqs, self.exp, self.meta = [], [], []   # model requests, impl answers, info
         self.freqs = []                               # (request, impl floats, meta) tolerance
+        self.kernel_vs_def = []                       # round 3: arguments of betw / betwdef pairs
+        self.sigma_reqs = []
 
     # exact correspondence item
     def exact(self, req, impl, meta):
@@ -1196,6 +1198,338 @@ def extended_checks(ctx, run, A, directed, tier):
                  "the caller's link-weight array was modified", {"adjacency": A.tolist()})
 
 
+
+# --------------------------------------------------------------------------
+# round 3: weighted n.s.i. betweenness against the pair-dependency definition, weighted clustering,
+# distributions / histograms, exact random-walk betweenness, hubs
+# --------------------------------------------------------------------------
+
+def weighted_counts(orc, w):
+    """sw[s][t] = sum over the shortest s-t paths of the product of the weights of all nodes on the path"""
+    n, d, A = orc.n, orc.d, orc.A
+    sw = [[Fr(0)] * n for _ in range(n)]
+    for s in range(n):
+        sw[s][s] = Fr(w[s])
+        for t in sorted((t for t in range(n) if t != s and d[s][t] != INF), key=lambda t: d[s][t]):
+            sw[s][t] = w[t] * sum(sw[s][u] for u in range(n)
+                                  if A[u][t] and d[s][u] != INF and d[s][u] + 1 == d[s][t])
+    return sw
+
+
+def nsi_betweenness_def(orc, w, S, T):
+    """published double sum: b_v = 1/w_v * sum_{t in T} sum_{s in S, s != v != t} w_s w_t sigma_ts(v)/sigma_ts
+    with sigma_ts(v) = sigma_tv sigma_vs / w_v (product formula, v on a shortest t-s path)"""
+    n, d = orc.n, orc.d
+    sw = weighted_counts(orc, w)
+    b = [Fr(0)] * n
+    for t in T:
+        for s in S:
+            if s == t or d[t][s] == INF:
+                continue
+            for v in range(n):
+                if v in (s, t) or d[t][v] == INF or d[v][s] == INF or d[t][v] + d[v][s] != d[t][s]:
+                    continue
+                b[v] += w[s] * w[t] * (sw[t][v] * sw[v][s] / w[v]) / sw[t][s]
+    return [b[v] / w[v] for v in range(n)]
+
+
+def hist_bounds(values, n_bins, interval=None):
+    """exact normalised histogram (np.histogram semantics: equal-width classes, last one closed).
+    Returns (certain, maybe, total, edges): a value that sits exactly on an interior class boundary may be
+    counted on either side (the boundaries are floats in numpy)."""
+    vals = [Fr(v) for v in values]
+    lo, hi = (Fr(interval[0]), Fr(interval[1])) if interval is not None else (min(vals), max(vals))
+    if lo == hi:
+        lo, hi = lo - Fr(1, 2), hi + Fr(1, 2)
+    certain, maybe = [0] * n_bins, [0] * n_bins
+    total = 0
+    for x in vals:
+        if x < lo or x > hi:
+            continue
+        total += 1
+        if x == hi:
+            certain[-1] += 1
+            continue
+        t = (x - lo) * n_bins / (hi - lo)
+        i = t.numerator // t.denominator
+        if t.denominator == 1 and 0 < i:
+            maybe[i] += 1
+            maybe[i - 1] += 1
+        else:
+            certain[i] += 1
+    edges = [lo + (hi - lo) * i / n_bins for i in range(n_bins)]
+    return certain, maybe, total, edges
+
+
+def hist_ok(got, certain, maybe, total, cumulative=False):
+    g = [float(x) * total for x in np.asarray(got).ravel()]
+    if len(g) != len(certain):
+        return False
+    lo, hi = list(certain), [c + m for c, m in zip(certain, maybe)]
+    if cumulative:
+        lo = [sum(lo[i:]) for i in range(len(lo))]
+        hi = [min(total, sum(hi[i:])) for i in range(len(hi))]
+    return all(l - 1e-6 <= x <= h + 1e-6 for x, l, h in zip(g, lo, hi)) and \
+        (cumulative or abs(sum(g) - total) <= 1e-6)
+
+
+def fr_solve(M, B):
+    """exact solution X of M X = B (Fractions), None if singular"""
+    n = len(M)
+    m = len(B[0])
+    a = [list(map(Fr, M[i])) + list(map(Fr, B[i])) for i in range(n)]
+    for c in range(n):
+        p = next((r for r in range(c, n) if a[r][c] != 0), None)
+        if p is None:
+            return None
+        a[c], a[p] = a[p], a[c]
+        inv = 1 / a[c][c]
+        a[c] = [x * inv for x in a[c]]
+        for r in range(n):
+            if r != c and a[r][c] != 0:
+                f = a[r][c]
+                a[r] = [x - f * y for x, y in zip(a[r], a[c])]
+    return [row[n:n + m] for row in a]
+
+
+def exact_randomwalk(A):
+    """Newman's and Arenas' random-walk betweenness of a connected undirected graph, in exact rationals
+    (conventions of design/C03.md: Newman = sum_{s<t} I_i^{st} / ((N-1)/2) with unit current and
+    I_s = I_t = 1; Arenas = expected number of visits of the walk absorbed at t, summed over s and t)"""
+    n = len(A)
+    k = [sum(r) for r in A]
+    L = [[(k[i] if i == j else 0) - A[i][j] for j in range(n)] for i in range(n)]
+    eye = [[Fr(int(i == j)) for j in range(n)] for i in range(n)]
+    Jn = Fr(1, n)
+    T = fr_solve([[L[i][j] + Jn for j in range(n)] for i in range(n)], eye)
+    T = [[T[i][j] - Jn for j in range(n)] for i in range(n)]
+    nb = [Fr(0)] * n
+    for s in range(n):
+        for t in range(s):
+            x = [T[i][s] - T[i][t] for i in range(n)]
+            for i in range(n):
+                if i in (s, t):
+                    nb[i] += 1
+                else:
+                    nb[i] += sum(abs(x[i] - x[j]) for j in range(n) if A[i][j]) / 2
+    nb = [2 * x / (n - 1) for x in nb]
+    P = [[Fr(A[i][j], k[i]) for j in range(n)] for i in range(n)]
+    ab = [Fr(0)] * n
+    for t in range(n):
+        Pt = [([Fr(0)] * n if i == t else P[i]) for i in range(n)]
+        inv = fr_solve([[eye[i][j] - Pt[i][j] for j in range(n)] for i in range(n)], eye)
+        for j in range(n):
+            # column sums of (I - Pt)^-1 Pt
+            ab[j] += sum(inv[i][l] * Pt[l][j] for i in range(n) for l in range(n))
+    return nb, ab
+
+
+def round3_checks(ctx, run, A, directed, tier):
+    from pyunicorn.core.network import Network
+    rng = ctx.rng
+    n = A.shape[0]
+    orc = Oracle(A, directed)
+    feat = features(A, directed)
+    nodes = list(range(n))
+    m = enc_mat(A)
+    ctx.count("round3:graphs")
+
+    def sig(kind, method, **kw):
+        s_ = {"kind": kind, "method": method, "directed": directed, "input_class": feat}
+        s_.update(kw)
+        return s_
+
+    def rp(method, expected, observed, **kw):
+        r_ = {"method": method, "directed": directed, "adjacency": A.tolist(),
+              "expected": expected, "observed": observed}
+        r_.update(kw)
+        return r_
+
+    net = mk_network(A, directed)
+
+    # ---- 1. distributions and histograms -------------------------------------------------------
+    for meth, base, bins_plus, cum in (("degree_distribution", orc.deg, 0, False),
+                                       ("indegree_distribution", orc.inn, 0, False),
+                                       ("outdegree_distribution", orc.out, 1, False),
+                                       ("degree_cdf", orc.deg, 0, True),
+                                       ("indegree_cdf", orc.inn, 1, True),
+                                       ("outdegree_cdf", orc.out, 1, True)):
+        nb = max(base) + bins_plus
+        st, got = quiet(getattr(net, meth))
+        ctx.count("oracle:" + meth)
+        if nb <= 0:
+            continue   # a histogram with no class: numpy raises, the distribution is undefined
+        c, mb, tot, _ = hist_bounds(base, nb)
+        if st != "ok" or not hist_ok(got, c, mb, tot, cum):
+            ctx.fail(sig("api", meth), f"{meth} is not the normalised {'cumulative ' if cum else ''}histogram of the "
+                     f"degrees in {nb} equal classes between the smallest and the largest degree",
+                     rp(meth, {"certain": c, "boundary": mb, "total": tot}, fl(got) if st == "ok" else got))
+    # static helpers with arbitrary values / intervals
+    vals = [Fr(rng.randrange(-8, 40), rng.choice([1, 2, 4])) for _ in range(rng.randrange(1, 30))]
+    nb = rng.randrange(1, 9)
+    interval = rng.choice([None, (0, 8), (-2, 10), (1, 1.5), (3, 20)])
+    c, mb, tot, edges = hist_bounds(vals, nb, interval)
+    fv = [float(x) for x in vals]
+    fv = rng.choice([fv, np.array(fv), np.array(fv, dtype=np.float32)])
+    ctx.count("oracle:_histogram")
+    # lower class bounds come back in the width of the caller's array
+    etol = 1e-5 if getattr(fv, "dtype", None) == np.float32 else 1e-9
+    if tot:
+        st, got = quiet(Network._histogram, fv, nb, interval)
+        ok = st == "ok" and hist_ok(got[0], c, mb, tot) and \
+            all(rel_close(x, e, etol) or abs(float(x) - float(e)) < etol for x, e in zip(fl(got[2]), edges))
+        if ok:   # statistical error 1/sqrt(n_i)/total per class
+            for f_, e_ in zip(fl(got[0]), fl(got[1])):
+                cnt = f_ * tot
+                exp_e = (1 / math.sqrt(cnt) / tot) if cnt > 0.5 else 0.0
+                ok &= abs(e_ - exp_e) <= 1e-9
+        if not ok:
+            ctx.fail({"kind": "api", "method": "_histogram", "input_class": "values"},
+                     "_histogram differs from the normalised histogram / its error / lower class bounds",
+                     {"values": [str(x) for x in vals], "n_bins": nb, "interval": interval,
+                      "expected": {"certain": c, "boundary": mb, "total": tot, "edges": [str(e) for e in edges]},
+                      "observed": [fl(x) for x in got] if st == "ok" else got})
+        st, got = quiet(Network._cum_histogram, fv, nb, interval)
+        if st != "ok" or not hist_ok(got[0], c, mb, tot, True):
+            ctx.fail({"kind": "api", "method": "_cum_histogram", "input_class": "values"},
+                     "_cum_histogram[i] is not the share of the values in the classes j >= i",
+                     {"values": [str(x) for x in vals], "n_bins": nb, "interval": interval,
+                      "observed": fl(got[0]) if st == "ok" else got})
+    # n.s.i. degree histograms with dyadic node weights
+    if not directed and n:
+        w = [Fr(rng.randrange(1, 9), 4) for _ in nodes]
+        netw = mk_network(A, False)
+        netw.node_weights = np.array([float(x) for x in w], dtype=rng.choice([np.float32, np.float64]))
+        nk = [sum(w[j] for j in nodes if A[i, j]) + w[i] for i in nodes]
+        # typical weight a power of two: the corrected degrees stay dyadic, so `int(max/min)` is exact
+        for tw in (None, Fr(1, 8)):
+            vk = nk if tw is None else [x / tw - 1 for x in nk]
+            q = max(vk) / min(vk)
+            nb = q.numerator // q.denominator + 1
+            c, mb, tot, edges = hist_bounds(vk, nb)
+            kw = {} if tw is None else {"typical_weight": float(tw)}
+            st, got = quiet(netw.nsi_degree_histogram, **kw)
+            ctx.count("oracle:nsi_degree_histogram")
+            if st != "ok" or not hist_ok(got[0], c, mb, tot) or \
+                    any(not rel_close(x, e, 1e-9) for x, e in zip(fl(got[2]), edges)):
+                ctx.fail(sig("api", "nsi_degree_histogram", typical_weight=tw is not None),
+                         "nsi_degree_histogram is not the histogram of the n.s.i. degrees in "
+                         "int(max/min)+1 classes", rp("nsi_degree_histogram", {"certain": c, "boundary": mb},
+                                                      [fl(x) for x in got] if st == "ok" else got,
+                                                      node_weights=[str(x) for x in w]))
+            st, got = quiet(netw.nsi_degree_cumulative_histogram, **kw)
+            if st != "ok" or not hist_ok(got[0], c, mb, tot, True):
+                ctx.fail(sig("api", "nsi_degree_cumulative_histogram", typical_weight=tw is not None),
+                         "nsi_degree_cumulative_histogram is not the cumulative histogram of the n.s.i. degrees",
+                         rp("nsi_degree_cumulative_histogram", {"certain": c, "boundary": mb},
+                            fl(got[0]) if st == "ok" else got, node_weights=[str(x) for x in w]))
+
+    # ---- 2. weighted_local_clustering (static; Holme 2007) ---------------------------------------
+    if n and A.any():
+        k = rng.choice([-30, -4, 0, 0, 3, 30])
+        Wq = [[(Fr(rng.randrange(1, 17), 8) * Fr(2) ** k if A[i, j] else Fr(0)) for j in nodes] for i in nodes]
+        if not directed or rng.random() < 0.5:
+            Wq = [[Wq[min(i, j)][max(i, j)] if (A[i, j] or A[j, i]) else Fr(0) for j in nodes] for i in nodes]
+        mx = max(max(r_) for r_ in Wq)
+        expw = []
+        for i in nodes:
+            num = sum(Wq[i][j] * Wq[j][l] * Wq[l][i] for j in nodes for l in nodes)
+            den = mx * sum(Wq[i]) * sum(Wq[l][i] for l in nodes)
+            expw.append(num / den if den else None)
+        width = rng.choice([np.float32, np.float64, "list"])
+        Wf = [[float(x) for x in r_] for r_ in Wq]
+        arg = Wf if width == "list" else np.array(Wf, dtype=width)
+        st, got = quiet(Network.weighted_local_clustering, arg)
+        ctx.count(f"oracle:weighted_local_clustering:{width if width == 'list' else width.__name__}")
+        tol = 2e-6 if width is np.float32 else 1e-9
+        if st != "ok" or len(fl(got)) != n or any(
+                (e is None and not math.isnan(x)) or (e is not None and not abs(x - float(e)) <= tol * max(1.0, float(e)))
+                for x, e in zip(fl(got), expw)):
+            ctx.fail(sig("api", "weighted_local_clustering"),
+                     "weighted_local_clustering differs from sum_jk w_ij w_jk w_ki / (max(w) sum_jk w_ij w_ki)",
+                     rp("weighted_local_clustering", [str(e) for e in expw], fl(got) if st == "ok" else got,
+                        weights=[[str(x) for x in r_] for r_ in Wq]))
+        elif width is not np.float32 and n <= 12:
+            run.approx("wlc " + ";".join(enc_frs(r_) for r_ in Wq), [fl(got)], ("wlc", A, directed))
+
+    if directed:
+        return
+    # ---- 3. the kernel _nsi_betweenness against the pair-dependency definition -------------------
+    if n and n <= (22 if tier == "thorough" else 16):
+        scale = Fr(2) ** rng.choice([-10, 0, 0, 6])
+        w = [Fr(rng.randrange(1, 13), 4) * scale for _ in nodes]
+        netw = mk_network(A, False)
+        netw.node_weights = np.array([float(x) for x in w], dtype=rng.choice([np.float32, np.float64]))
+        pick = rng.random()
+        if pick < 0.3:
+            S, T = nodes, nodes
+        elif pick < 0.5:
+            S, T = [rng.choice(nodes)], [rng.choice(nodes)]
+        else:
+            S = sorted(rng.sample(nodes, rng.randrange(1, n + 1)))
+            T = rng.sample(nodes, rng.randrange(1, n + 1))      # unsorted targets
+        expb = nsi_betweenness_def(orc, w, S, T)
+        Targ = rng.choice([T, np.array(T), tuple(T)])
+        st, got = quiet(netw.nsi_betweenness, sources=S, targets=Targ)
+        ctx.count("oracle:nsi_betweenness:weighted")
+        if st != "ok" or any(not rel9(x, e) for x, e in zip(fl(got), expb)):
+            ctx.fail(sig("api", "nsi_betweenness", node_weights="dyadic"),
+                     "nsi_betweenness differs from 1/w_v sum_{s,t} w_s w_t sigma_st(v)/sigma_st",
+                     rp("nsi_betweenness", [str(e) for e in expb], fl(got) if st == "ok" else got,
+                        node_weights=[str(x) for x in w], sources=S, targets=list(map(int, T))))
+        elif n <= 12:
+            src = [1 if v in S else 0 for v in nodes]
+            args = f"{m} {enc_frs(w)} {enc_vec(src)} {enc_vec(T)}"
+            run.approx("betwdef " + args, [fl(got)], ("betwdef-rel", A, directed))
+            run.kernel_vs_def.append(args)
+            if n <= 9:
+                run.sigma_reqs.append(f"sigma {m} {enc_frs(w)} {rng.choice(nodes)}")
+        # a second call on the same object with other sources / targets (cached worker, different key)
+        S2 = sorted(rng.sample(nodes, rng.randrange(1, n + 1)))
+        T2 = sorted(rng.sample(nodes, rng.randrange(1, n + 1)))
+        st, got = quiet(netw.nsi_interregional_betweenness, S2, T2)
+        exp2 = nsi_betweenness_def(orc, w, S2, T2)
+        if st != "ok" or any(not rel9(x, e) for x, e in zip(fl(got), exp2)):
+            ctx.fail(sig("history", "nsi_interregional_betweenness", after="nsi_betweenness-with-other-sets"),
+                     "nsi_interregional_betweenness after an earlier call with other sources/targets differs "
+                     "from its definition",
+                     rp("nsi_interregional_betweenness", [str(e) for e in exp2], fl(got) if st == "ok" else got,
+                        node_weights=[str(x) for x in w], sources=S2, targets=T2))
+
+    # ---- 4. random-walk betweenness in exact rationals (small connected graphs) --------------------
+    if 3 <= n <= 7 and is_connected(A):
+        nbx, abx = exact_randomwalk(orc.A)
+        for meth, exp in (("newman_betweenness", nbx), ("arenas_betweenness", abx)):
+            st, got = quiet(getattr(net, meth))
+            ctx.count("oracle:exact:" + meth)
+            if st != "ok" or any(not close(x, e, 1e-8) for x, e in zip(fl(got), exp)):
+                ctx.fail({"kind": "api", "method": meth, "directed": False, "input_class": "connected",
+                          "oracle": "exact"},
+                         f"{meth} differs from its definition evaluated in exact rational arithmetic",
+                         rp(meth, [str(e) for e in exp], fl(got) if st == "ok" else got))
+
+
+def hub_betweenness(ctx):
+    """hubs / multiplicities beyond the small integer ranges in the kernel `_nsi_betweenness`:
+    a star with 300 leaves and K(2,200) (200 equal shortest paths between the two hubs), closed forms"""
+    for name, A, exp in (("star-300", star(301), [Fr(300 * 299)] + [Fr(0)] * 300),
+                         ("K(2,200)", bipartite(2, 200), [Fr(200 * 199, 2)] * 2 + [Fr(2, 200)] * 200)):
+        net = mk_network(A, False)
+        ctx.count("kernel:_nsi_betweenness:" + name)
+        ctx.case(("hub-betw", name), True)
+        st, got = quiet(net.interregional_betweenness)
+        if st != "ok" or any(not close(x, e) for x, e in zip(fl(got), exp)):
+            ctx.fail({"kind": "kernel", "kernel": "_nsi_betweenness", "input_class": name},
+                     f"interregional_betweenness on {name} differs from the closed form",
+                     {"graph": name, "expected": [str(exp[0]), str(exp[-1])],
+                      "observed": [fl(got)[0], fl(got)[-1]] if st == "ok" else got})
+        st, got = quiet(net.betweenness)
+        if st != "ok" or any(not close(x, e / 2) for x, e in zip(fl(got), exp)):
+            ctx.fail({"kind": "api", "method": "betweenness", "input_class": name},
+                     f"betweenness on {name} differs from the closed form",
+                     {"graph": name, "observed": [fl(got)[0], fl(got)[-1]] if st == "ok" else got})
+
+
 def spectral_checks(ctx, A):
     """connected undirected graphs: spectral and random-walk measures against dense
     linear algebra (correspondence-only measures; float tolerance 1e-6)"""
@@ -1368,6 +1702,22 @@ def run(ctx):
     for fam, A, directed in (esel if len(esel) <= nx else rng.sample(esel, nx)):
         extended_checks(ctx, run_, A, directed, ctx.tier)
     big_degree_kernels(ctx)
+    # round 3: distributions, weighted clustering, weighted n.s.i. betweenness = definition, exact random walks
+    nr = 160 if quick else 1500
+    for fam, A, directed in (esel if len(esel) <= nr else rng.sample(esel, nr)):
+        round3_checks(ctx, run_, A, directed, ctx.tier)
+    hub_betweenness(ctx)
+    # inside the model: the statement-by-statement kernel model against the pair-dependency definition,
+    # and the path-count recursion against the enumeration of all shortest paths (exact rationals)
+    kd = run_.kernel_vs_def
+    ans = common.driver(ctx.pid, ["betw " + a for a in kd] + ["betwdef " + a for a in kd] + run_.sigma_reqs)
+    badk = [kd[i][:200] for i in range(len(kd)) if ans[i] != ans[len(kd) + i] or ans[i] == "bad-request"]
+    bads = [r[:200] for r, x in zip(run_.sigma_reqs, ans[2 * len(kd):])
+            if ";" not in x or x.split(";")[0] != x.split(";")[1]]
+    ctx.obligation(f"model: kernel _nsi_betweenness == pair-dependency definition, exact ({len(kd)} requests)",
+                   "correspondence", not badk, "\n".join(badk[:5]))
+    ctx.obligation(f"model: path-count recursion == sum over all enumerated shortest paths, exact "
+                   f"({len(run_.sigma_reqs)} requests)", "correspondence", not bads, "\n".join(bads[:5]))
 
     # ---------------- correspondence with the Lean model --------------------------------
     ctx.correspond("Lean Net model == Network methods (integer outputs)", run_.reqs, run_.exp)
